@@ -228,7 +228,10 @@ def run(prog, ctx):
         why = "the inner entries are assigned %s, not themselves times 1/sum(inner entries)" % show(t)
         if ok:
             # the sum is taken after both end entries were zeroed and after the clipping
-            fdefs = [x for x in tm.env.bindings.get("f", []) if x.kind == "assign"] if any(y == ("n", "f") for y in subterms(tm.term(norm.ast.value))) else []
+            # a normalising factor held in a local: the sum is taken where that local is defined
+            fdefs = [x for y in subterms(tm.term(norm.ast.value)) if y[0] == "n" and y[1] != w for x in tm.env.bindings.get(y[1], [])
+                     if x.kind == "assign" and x.value is not None and any(isinstance(z, ast.Call) and isinstance(z.func, ast.Name) and z.func.id == "sum"
+                                                                          for z in ast.walk(x.value))]
             anchor = c.node_of(fdefs[0].stmt) if fdefs else norm
             ok = c.dominates(zero_first, anchor) and c.dominates(zero_last, anchor) and \
                 any(wl == w and c.edge_dominates(ln, False, anchor) for (_l, wl, ln) in clip_loops)
@@ -356,15 +359,20 @@ def run(prog, ctx):
     tmw = Terms(gmw.node, max_depth=0)
     cg = cfg_of(gmw)
     a_, b_ = gmw.params[0], gmw.params[1]
-    inside = {("cmp", "Lt", ("n", a_), ("n", "mid")), ("cmp", "Lt", ("n", "mid"), ("n", b_))}
+    # role of the midpoint: the local that get_middle_weighted returns
+    mids = {r.ast.value.id for r in R.return_paths(gmw)[0] if isinstance(r.ast.value, ast.Name)}
+    MID = sorted(mids)[0] if len(mids) == 1 else None
+    if MID is None:
+        raise AnalysisError("anchor vanished: get_middle_weighted no longer returns one local (the midpoint)")
+    inside = {("cmp", "Lt", ("n", a_), ("n", MID)), ("cmp", "Lt", ("n", MID), ("n", b_))}
     fallbacks = []
     first_def = None
-    for bnd_ in tmw.env.bindings.get("mid", []):
+    for bnd_ in tmw.env.bindings.get(MID, []):
         if bnd_.kind == "assign":
             n = cg.node_of(bnd_.stmt)
             if first_def is None or n.idx < first_def.idx:
                 first_def = n
-    for bnd_ in tmw.env.bindings.get("mid", []):
+    for bnd_ in tmw.env.bindings.get(MID, []):
         if bnd_.kind == "assign" and cg.node_of(bnd_.stmt) is not first_def:
             fallbacks.append(bnd_)
     ctx.floor("C15.D6", len(fallbacks), 2, "fallback assignments of the weighted midpoint")
@@ -383,7 +391,7 @@ def run(prog, ctx):
                   "`%s` is taken only after the test a < mid < b failed" % src(fb.stmt),
                   "the midpoint fallback `%s` can replace a midpoint that was strictly inside (a, b)" % src(fb.stmt))
     withv = R.return_paths(gmw)[0]
-    ctx.check(bool(withv) and all(tmw.term(r.ast.value) == ("n", "mid") for r in withv), "C15.D6", R.key_of(gmw, "returns-mid"), gmw.loc(),
+    ctx.check(bool(withv) and all(tmw.term(r.ast.value) == ("n", MID) for r in withv), "C15.D6", R.key_of(gmw, "returns-mid"), gmw.loc(),
               "the (possibly corrected) midpoint is returned", "get_middle_weighted does not return the checked midpoint")
     # the split itself asserts start < mid < end (shared with C06.D1)
     rf = prog.func("RefinementObject.RefinementObjectSingleDimension.refine")
@@ -395,8 +403,10 @@ def run(prog, ctx):
         if n.kind == "stmt" and isinstance(n.ast, ast.Assert):
             t = tr.term(n.ast.test)
             have = set(t[2]) if t[0] == "bool" and t[1] == "and" else {t}
-            if {("cmp", "Lt", ("a", ("n", "self"), "start"), ("n", "mid")), ("cmp", "Lt", ("n", "mid"), ("a", ("n", "self"), "end"))} <= have:
-                uses = [R.cfg_node(rf, x) for x in R.calls_in(rf.node) if any(isinstance(a, ast.Name) and a.id == "mid" for a in x.args)]
+            lows = {x[3][1] for x in have if x[0] == "cmp" and x[1] == "Lt" and x[2] == ("a", ("n", "self"), "start") and x[3][0] == "n"}
+            highs = {x[2][1] for x in have if x[0] == "cmp" and x[1] == "Lt" and x[3] == ("a", ("n", "self"), "end") and x[2][0] == "n"}
+            for MIDR in sorted(lows & highs):
+                uses = [R.cfg_node(rf, x) for x in R.calls_in(rf.node) if any(isinstance(a, ast.Name) and a.id == MIDR for a in x.args)]
                 uses = [u for u in uses if u is not n]
                 okA = bool(uses) and all(cr.dominates(n, u) for u in uses if not isinstance(u.ast, ast.Assert))
     ctx.check(okA, "C15.D6", R.key_of(rf, "midpoint-asserted-inside"), rf.loc(),
@@ -427,15 +437,19 @@ def check_moment_caches(prog, ctx):
         x1, x2 = fi.params[1], fi.params[2]
         key = ("tuple", ("n", x1), ("n", x2))
         problems = []
-        cdefs = [b for b in tm0.env.bindings.get("cache", []) if b.kind == "assign"]
+        # role of the cache: the local bound to one slot of self.cached_moments
+        cnames = [nm for nm, bs in tm0.env.bindings.items() for b in bs if b.kind == "assign" and b.value is not None
+                  and tm0.term(b.value)[0] == "s" and tm0.term(b.value)[1] == ("a", ("n", "self"), "cached_moments")]
+        CN = cnames[0] if len(set(cnames)) == 1 else None
+        cdefs = [b for b in tm0.env.bindings.get(CN, []) if b.kind == "assign"]
         slot = tm0.term(cdefs[0].value) if len(cdefs) == 1 else None
         if not (slot and slot[0] == "s" and slot[1] == ("a", ("n", "self"), "cached_moments") and slot[2][0] == "c"):
             problems.append("the cache is not one fixed slot of self.cached_moments")
         else:
             slots[name] = slot[2][1]
-        subs = [n for n in ast.walk(fi.node) if isinstance(n, ast.Subscript) and isinstance(n.value, ast.Name) and n.value.id == "cache"]
+        subs = [n for n in ast.walk(fi.node) if isinstance(n, ast.Subscript) and isinstance(n.value, ast.Name) and n.value.id == CN]
         mem = [n for n in ast.walk(fi.node) if isinstance(n, ast.Compare) and isinstance(n.ops[0], ast.In) and isinstance(n.comparators[0], ast.Name)
-               and n.comparators[0].id == "cache"]
+               and n.comparators[0].id == CN]
         keys = {repr(tm0.term(n.slice)) for n in subs} | {repr(tm0.term(n.left)) for n in mem}
         if keys != {repr(key)} or not mem or len(subs) < 2:
             problems.append("membership test, lookup and store do not all use the key (x1, x2)")
